@@ -14,11 +14,12 @@ EXTENDS TextCases, Json
 
 CONSTANTS MaxTok, WideTok
 
-Core == { <<BS>>, <<BS, 117>>, <<BS, 120>>, <<DQ>>, <<SQ>>, <<32>>, <<48>>, <<55>>, <<102>>, <<103>>,
-          <<48, 48>>, <<100, 56, 51, 100>>, <<100, 101, 48, 48>>, <<97>>, <<BS, 51>> }
-          \* \  \u  \x  "  '  sp  0  7  f  g  00  d83d  de00  a  \3
+Core == { <<BS>>, <<BS, 117>>, <<BS, 120>>, <<DQ>>, <<SQ>>, <<32>>, <<48>>, <<55>>, <<102>>,
+          <<100, 56, 51, 100>>, <<100, 101, 48, 48>> }
+          \* \  \u  \x  "  '  sp  0  7  f  d83d  de00
 Wide == Core \cup
-        { <<BS, 85>>, <<BS, 110>>, <<BS, DQ>>, <<BS, SQ>>, <<BS, BS>>, <<BS, QM>>, <<BS, 97>>, <<BS, 113>>,
+        { <<103>>, <<48, 48>>, <<97>>, <<BS, 51>>,                                     \* g  00  a  \3
+          <<BS, 85>>, <<BS, 110>>, <<BS, DQ>>, <<BS, SQ>>, <<BS, BS>>, <<BS, QM>>, <<BS, 97>>, <<BS, 113>>,
           \* \U  \n  \"  \'  \\  \?  \a  \q
           <<BS, 48>>, <<BS, 52>>, <<BS, 55>>, <<BS, 56>>, <<BS, 88>>,                  \* \0 \4 \7 \8 \X
           <<56>>, <<70>>, <<55, 55>>, <<102, 102>>, <<48, 48, 48, 48>>, <<102, 102, 102, 102>>,
@@ -30,6 +31,9 @@ Wide == Core \cup
           <<BS, 85, 48, 48, 49, 49, 48, 48, 48, 48>>, <<BS, 85, 48, 48, 48, 48, 100, 56, 51, 100>>,
           \* \U00110000  \U0000d83d
           <<BS, 85, 70, 70, 70, 70, 70, 70, 70, 70>>,                                  \* \UFFFFFFFF
+          <<BS, 117, 100, 56, 51, 100, BS, 117, 100, 101, 48, 48>>,                    \* \ud83d\ude00  (a surrogate pair)
+          <<BS, 117, 68, 56, 51, 68, BS, 117, 68, 69, 48, 48>>,                        \* \uD83D\uDE00
+          <<BS, 117, 100, 56, 51, 100, BS, 85, 48, 48, 48, 48, 100, 101, 48, 48>>,     \* \ud83d\U0000de00  (low half must be \u)
           <<HASH>>, <<NL>>, <<9>>, <<0>>, <<127>>, <<195, 169>>, <<255>>, <<239, 191, 191>>, <<240, 159, 152, 128>>,
           <<237, 160, 128>>, <<194>> }
 
